@@ -49,8 +49,8 @@ def l1(ctx, rep, rule='L1.guard', names=QUERY_METHODS, only_classes=None):
     rep.rule(rule, 'every query method passes check_fit() before the first read of fitted state (all paths)')
     ga = ctx.memo.setdefault('guard', GuardAnalysis(ctx))
     n_defs = 0
-    reported = set()
     classes = model_classes(prog)
+    results = {}  # method qualname -> [(cls, safe, witness, F)]
     for cls in classes:
         if only_classes is not None and cls.qualname not in only_classes:
             continue
@@ -62,27 +62,26 @@ def l1(ctx, rep, rule='L1.guard', names=QUERY_METHODS, only_classes=None):
             m = cls.lookup(name)
             if m is None or m.kind != 'method':
                 continue
-            k2 = (m.qualname,)
-            safe = ga.safe.get((cls.qualname, name), True)
-            wit = ga.witness.get((cls.qualname, name))
-            if m.qualname in reported:
-                continue
-            if safe and cls is not m.cls:
-                # an inherited definition is reported once, for its defining class, unless it fails here
-                continue
-            reported.add(m.qualname)
-            n_defs += 1
-            if only_raises(m):
-                rep.ok(rule, m, m.node.name, 'abstract (only raises)', construct=f'def {name}')
-            elif safe:
-                why = 'guarded' if F else 'class has no fitted state'
-                rep.ok(rule, m, m.node.name, why, construct=f'def {name}')
-            else:
-                node, what = wit
-                rep.bad(rule, m, node, f'{what} on a path that has not passed check_fit() (receiver class '
-                        f'{cls.name}): an unfitted model fails with an unrelated error instead of NotFittedError',
-                        construct=f'def {name}: {short(node, 60)}',
-                        path=f'{m.short} entry -> {short(stmt_of(node), 70)}')
+            results.setdefault(m.qualname, []).append(
+                (cls, m, name, ga.safe.get((cls.qualname, name), True), ga.witness.get((cls.qualname, name)), F))
+    for q in sorted(results):
+        entries = results[q]
+        m, name = entries[0][1], entries[0][2]
+        n_defs += 1
+        failing = [e for e in entries if not e[3]]
+        if only_raises(m):
+            rep.ok(rule, m, m.node.name, 'abstract (only raises)', construct=f'def {name}')
+        elif not failing:
+            anyF = any(e[5] for e in entries)
+            rep.ok(rule, m, m.node.name, f'guarded for {len(entries)} receiver class(es)' if anyF else 'class has no fitted state',
+                   construct=f'def {name}')
+        else:
+            cls, _m, _n, _s, wit, _F = failing[0]
+            node, what = wit
+            rep.bad(rule, m, node, f'{what} on a path that has not passed check_fit() (receiver class '
+                    f'{cls.name}): an unfitted model fails with an unrelated error instead of NotFittedError',
+                    construct=f'def {name}: {short(node, 60)}',
+                    path=f'{m.short} entry -> {short(stmt_of(node), 70)}')
     if only_classes is None:
         rep.floor(rule, 'query-method definitions analysed', n_defs, 45)
     return n_defs
